@@ -78,7 +78,7 @@ func resolveDeadline(p *Prog) *dlRoles {
 		return r
 	}
 	// the timer callback: the bound method handed to the arming call in Set
-	instrsOf(r.Set, func(in ssa.Instruction) {
+	for _, in := range findU(r.Set, func(ssa.Instruction) bool { return true }) {
 		if mc, ok := in.(*ssa.MakeClosure); ok {
 			if fn, ok := mc.Fn.(*ssa.Function); ok && strings.HasSuffix(fn.Name(), "$bound") {
 				if m := p.Func("deadline", "Deadline", strings.TrimSuffix(fn.Name(), "$bound")); m != nil {
@@ -86,7 +86,7 @@ func resolveDeadline(p *Prog) *dlRoles {
 				}
 			}
 		}
-	})
+	}
 	if r.Timeout == nil {
 		r.Timeout = p.Func("deadline", "Deadline", "timeout")
 	}
@@ -102,15 +102,14 @@ func resolveDeadline(p *Prog) *dlRoles {
 			}
 		}
 	})
-	arm := findInstrs(r.Set, func(in ssa.Instruction) bool { return r.isArm(in) })
+	arm := findU(r.Set, func(in ssa.Instruction) bool { return r.isArm(in) })
 	for _, a := range arm {
-		instrsOf(r.Set, func(in ssa.Instruction) {
-			if st, ok := in.(*ssa.Store); ok && isFieldStore(in, r.T, r.state) && dominates(in, a) {
-				if k, ok := constInt(st.Val); ok {
-					r.stStarted = k
-				}
+		for _, in := range findU(r.Set, func(in ssa.Instruction) bool { return isFieldStore(in, r.T, r.state) }) {
+			st := in.(*ssa.Store)
+			if k, ok := constInt(st.Val); ok && (domU(in, a) || domU(a, in)) {
+				r.stStarted = k
 			}
-		})
+		}
 	}
 	if r.stExceeded < 0 || r.stStarted < 0 || r.stExceeded == r.stStarted || r.stStarted == 0 || r.stExceeded == 0 {
 		miss("state constants could not be resolved (started=%d exceeded=%d)", r.stStarted, r.stExceeded)
@@ -190,115 +189,118 @@ type dlPath struct {
 	pendingAtClose string
 }
 
-func (r *dlRoles) walk(f *ssa.Function, path cfgPath) dlPath {
+func (r *dlRoles) walk(f *ssa.Function, path upath) dlPath {
 	s := dlPath{entry: map[int64]bool{r.stStopped: true, r.stStarted: true, r.stExceeded: true}, arg: "?", feasible: true, newDoneFirst: true, finalState: -1}
-	condOf := map[*ssa.BasicBlock]fact{}
-	ci := 0
-	for _, b := range path.Blocks {
-		if _, ok := b.Instrs[len(b.Instrs)-1].(*ssa.If); ok && ci < len(path.Conds) {
-			condOf[b] = path.Conds[ci]
-			ci++
-		}
-	}
-	curState := int64(-1)        // -1: still the entry state
+	curState := int64(-1)            // -1: still the entry state
 	loadVal := map[ssa.Value]int64{} // state loads -> abstract value at load time (-1 entry)
 	pendLoadEpoch := map[ssa.Value]int{}
 	pendEpoch := 0
 	var stopVal ssa.Value
 	effects := 0
 	var pendZeroAfterDec *bool
-	for _, b := range path.Blocks {
-		for _, in := range b.Instrs {
-			switch x := in.(type) {
-			case *ssa.UnOp:
-				if x.Op == token.MUL && isFieldLoad(x, r.T, r.state) {
-					loadVal[x] = curState
+	ci := 0
+	res := func(v ssa.Value) ssa.Value { return path.resolve(v) }
+	for _, in := range path.Instrs {
+		switch x := in.(type) {
+		case *ssa.UnOp:
+			if x.Op == token.MUL && isFieldLoad(x, r.T, r.state) {
+				loadVal[x] = curState
+			}
+			if x.Op == token.MUL && isFieldLoad(x, r.T, r.pending) {
+				pendLoadEpoch[x] = pendEpoch
+			}
+		case *ssa.Store:
+			switch {
+			case isFieldStore(x, r.T, r.state):
+				if k, ok := constInt(res(x.Val)); ok {
+					curState = k
+					s.finalState = k
+					s.stateSet = true
+				} else {
+					s.desc = append(s.desc, "non-constant store to state")
+					curState = -2
 				}
-				if x.Op == token.MUL && isFieldLoad(x, r.T, r.pending) {
-					pendLoadEpoch[x] = pendEpoch
-				}
-			case *ssa.Store:
-				switch {
-				case isFieldStore(x, r.T, r.state):
-					if k, ok := constInt(x.Val); ok {
-						curState = k
-						s.finalState = k
-						s.stateSet = true
-					} else {
-						s.desc = append(s.desc, "non-constant store to state")
-						curState = -2
-					}
-					effects++
-				case isFieldStore(x, r.T, r.pending):
-					if bo, ok := x.Val.(*ssa.BinOp); ok {
-						if k, ok2 := constInt(bo.Y); ok2 && isFieldLoad(bo.X, r.T, r.pending) {
-							if bo.Op == token.ADD {
-								s.dPending += k
-							} else if bo.Op == token.SUB {
-								s.dPending -= k
-							}
-						} else {
-							s.desc = append(s.desc, "unrecognised update of pending")
-							s.dPending += 1000
+				effects++
+			case isFieldStore(x, r.T, r.pending):
+				if bo, ok := x.Val.(*ssa.BinOp); ok {
+					if k, ok2 := constInt(bo.Y); ok2 && isFieldLoad(bo.X, r.T, r.pending) {
+						if bo.Op == token.ADD {
+							s.dPending += k
+						} else if bo.Op == token.SUB {
+							s.dPending -= k
 						}
 					} else {
-						s.desc = append(s.desc, "unrecognised store to pending")
+						s.desc = append(s.desc, "unrecognised update of pending")
 						s.dPending += 1000
 					}
-					pendEpoch++
-					if effects == 0 {
-						s.firstEffect = "pending"
-					}
-					effects++
-				case isFieldStore(x, r.T, r.done):
-					if _, ok := x.Val.(*ssa.MakeChan); ok {
-						s.newDone++
-						if s.closes > 0 || s.arms > 0 {
-							s.newDoneFirst = false
-						}
-					} else {
-						s.desc = append(s.desc, "done replaced by something that is not a fresh channel")
-						s.newDone += 100
-					}
-					effects++
-				case isFieldStore(x, r.T, r.deadline):
-					if _, ok := x.Val.(*ssa.Parameter); ok {
-						s.deadlineSet = true
-					}
+				} else {
+					s.desc = append(s.desc, "unrecognised store to pending")
+					s.dPending += 1000
 				}
-			case *ssa.Call:
-				switch {
-				case r.isStop(x):
-					s.stopCalled = true
-					stopVal = x
-					s.stopEntry = map[int64]bool{}
-					for k, v := range s.entry {
-						if v {
-							s.stopEntry[k] = true
-						}
-					}
-					if effects == 0 {
-						s.stopBeforeEffects = true
-					}
-				case r.isArm(x):
-					s.arms++
-					effects++
-				case r.isCloseDone(x):
-					s.closes++
-					s.lastPos = x.Pos()
-					effects++
+				pendEpoch++
+				if effects == 0 {
+					s.firstEffect = "pending"
 				}
-				if lo, _ := lockOp(x); lo == "unlock" && s.closes == 0 {
-					s.unlockBeforeClose = true
+				effects++
+			case isFieldStore(x, r.T, r.done):
+				if _, ok := res(x.Val).(*ssa.MakeChan); ok {
+					s.newDone++
+					if s.closes > 0 || s.arms > 0 {
+						s.newDoneFirst = false
+					}
+				} else {
+					s.desc = append(s.desc, "done replaced by something that is not a fresh channel")
+					s.newDone += 100
+				}
+				effects++
+			case isFieldStore(x, r.T, r.deadline):
+				if _, ok := res(x.Val).(*ssa.Parameter); ok {
+					s.deadlineSet = true
 				}
 			}
+		case *ssa.Call:
+			switch {
+			case r.isStop(x):
+				s.stopCalled = true
+				stopVal = x
+				s.stopEntry = map[int64]bool{}
+				for k, v := range s.entry {
+					if v {
+						s.stopEntry[k] = true
+					}
+				}
+				if effects == 0 {
+					s.stopBeforeEffects = true
+				}
+			case r.isArm(x):
+				s.arms++
+				effects++
+			case r.isCloseDone(x):
+				s.closes++
+				s.lastPos = x.Pos()
+				effects++
+			}
+			if lo, _ := lockOp(x); lo == "unlock" && s.closes == 0 {
+				s.unlockBeforeClose = true
+			}
 		}
-		// branch taken at the end of this block
-		ft, ok := condOf[b]
-		if !ok {
+		iff, isIf := in.(*ssa.If)
+		if !isIf || ci >= len(path.Conds) {
 			continue
 		}
+		_ = iff
+		ft := path.Conds[ci]
+		ci++
 		cond, val := ft.Cond, ft.Val
+		for {
+			u, ok := cond.(*ssa.UnOp)
+			if ok && u.Op == token.NOT {
+				cond, val = u.X, !val
+				continue
+			}
+			break
+		}
+		cond = res(cond)
 		for {
 			u, ok := cond.(*ssa.UnOp)
 			if ok && u.Op == token.NOT {
@@ -313,7 +315,7 @@ func (r *dlRoles) walk(f *ssa.Function, path cfgPath) dlPath {
 			continue
 		}
 		if call, ok := cond.(*ssa.Call); ok && callName(call) == "(time.Time).IsZero" {
-			if _, isParam := call.Call.Args[0].(*ssa.Parameter); isParam {
+			if _, isParam := res(call.Call.Args[0]).(*ssa.Parameter); isParam {
 				if val {
 					s.arg = "zero"
 				} else if s.arg == "?" {
@@ -323,19 +325,18 @@ func (r *dlRoles) walk(f *ssa.Function, path cfgPath) dlPath {
 			continue
 		}
 		if cm, ok := normCmp(cond, val); ok {
+			cm.X, cm.Y = res(cm.X), res(cm.Y)
 			// state comparisons
 			var ld ssa.Value
 			var k int64
 			var isState bool
-			if v, ok1 := loadVal[cm.X]; ok1 {
+			if _, ok1 := loadVal[cm.X]; ok1 {
 				if c, ok2 := constInt(cm.Y); ok2 {
 					ld, k, isState = cm.X, c, true
-					_ = v
 				}
-			} else if v, ok1 := loadVal[cm.Y]; ok1 {
+			} else if _, ok1 := loadVal[cm.Y]; ok1 {
 				if c, ok2 := constInt(cm.X); ok2 {
 					ld, k, isState = cm.Y, c, true
-					_ = v
 				}
 			}
 			if isState && (cm.Op == token.EQL || cm.Op == token.NEQ) {
@@ -354,23 +355,22 @@ func (r *dlRoles) walk(f *ssa.Function, path cfgPath) dlPath {
 				}
 				continue
 			}
-			// dur > 0
-			if derivesFrom(cm.Y, func(v ssa.Value) bool {
-				c, ok := v.(*ssa.Call)
-				return ok && (callName(c) == "time.Until" || callName(c) == "(time.Time).Sub")
-			}, false) {
-				if c, ok := constInt(cm.X); ok && c == 0 && cm.Op == token.LSS { // 0 < dur
-					s.arg = "future"
-				} else if ok && c == 0 && cm.Op == token.LEQ { // 0 <= dur : treat as future too
+			isDur := func(v ssa.Value) bool {
+				return derivesFrom(v, func(v ssa.Value) bool {
+					c, ok := res(v).(*ssa.Call)
+					return ok && (callName(c) == "time.Until" || callName(c) == "(time.Time).Sub")
+				}, false)
+			}
+			// 0 < dur
+			if isDur(cm.Y) {
+				if c, ok := constInt(cm.X); ok && c == 0 && (cm.Op == token.LSS || cm.Op == token.LEQ) {
 					s.arg = "future"
 				}
 				continue
 			}
-			if derivesFrom(cm.X, func(v ssa.Value) bool {
-				c, ok := v.(*ssa.Call)
-				return ok && (callName(c) == "time.Until" || callName(c) == "(time.Time).Sub")
-			}, false) {
-				if c, ok := constInt(cm.Y); ok && c == 0 && (cm.Op == token.LEQ || cm.Op == token.LSS) { // dur <= 0
+			// dur <= 0
+			if isDur(cm.X) {
+				if c, ok := constInt(cm.Y); ok && c == 0 && (cm.Op == token.LEQ || cm.Op == token.LSS) {
 					s.arg = "past"
 				}
 				continue
@@ -428,7 +428,7 @@ func deadlineRules(c *Ctx, prefix string) {
 	la := computeLocksets(p)
 
 	// ---- Set ---------------------------------------------------------------------
-	paths, ok := enumPaths(r.Set, 400)
+	paths, ok := enumPathsU(r.Set, 400)
 	o1 := c.Obl(prefix+"1", fname(r.Set), "Set: on every feasible path the change of pending equals (#arms) - [Stop() returned true]; Stop() is called (first, and its result used) exactly when the entry state is started", 6)
 	o2 := c.Obl(prefix+"2", fname(r.Set), "Set: outcome by argument - zero: state stopped, no arm, no close; future: exactly one arm, state started, no close; past: exactly one close(done), state exceeded, no arm", 6)
 	o3 := c.Obl(prefix+"3", fname(r.Set), "Set: a fresh done channel is installed iff the entry state is exceeded, before any close/arm (no double close, waiters never orphaned)", 6)
@@ -444,11 +444,7 @@ func deadlineRules(c *Ctx, prefix string) {
 			continue
 		}
 		nFeasible++
-		last := pt.Blocks[len(pt.Blocks)-1]
-		pos := last.Instrs[len(last.Instrs)-1].Pos()
-		if !pos.IsValid() {
-			pos = r.Set.Pos()
-		}
+		pos := lastPos(pt, r.Set)
 		sum := fmt.Sprintf("entry=%s stop(called=%v,true=%v) arg=%s: dPending=%+d arms=%d closes=%d newDone=%d final=%s", r.entryStr(s), s.stopCalled, s.stopTrue, s.arg, s.dPending, s.arms, s.closes, s.newDone, r.stName(s.finalState))
 		o1.Site(pos, "%s", sum)
 		o2.Site(pos, "%s", sum)
@@ -538,7 +534,7 @@ func deadlineRules(c *Ctx, prefix string) {
 
 	// ---- timeout -----------------------------------------------------------------
 	o5 := c.Obl(prefix+"5", fname(r.Timeout), "timer callback: decrements pending exactly once first; signals only if it is the last outstanding callback (pending==0 after the decrement) and the state is started; then state=exceeded and close of the channel read under the lock; never arms or replaces done", 2)
-	tp, ok := enumPaths(r.Timeout, 100)
+	tp, ok := enumPathsU(r.Timeout, 100)
 	if !ok {
 		o5.Undecide("callback has a loop or too many paths")
 	} else {
@@ -547,11 +543,7 @@ func deadlineRules(c *Ctx, prefix string) {
 			if !s.feasible {
 				continue
 			}
-			last := pt.Blocks[len(pt.Blocks)-1]
-			pos := last.Instrs[len(last.Instrs)-1].Pos()
-			if !pos.IsValid() {
-				pos = r.Timeout.Pos()
-			}
+			pos := lastPos(pt, r.Timeout)
 			sum := fmt.Sprintf("entry=%s pendingAfterDec=%s: dPending=%+d closes=%d final=%s", r.entryStr(s), s.pendingAtClose, s.dPending, s.closes, r.stName(s.finalState))
 			o5.Site(pos, "%s", sum)
 			if s.dPending != -1 {
@@ -656,3 +648,14 @@ func trueKeys(m map[int64]bool) []int64 {
 }
 
 func runC09(c *Ctx) { deadlineRules(c, "R") }
+
+// lastPos: a valid source position near the end of the path.
+func lastPos(pt upath, f *ssa.Function) token.Pos {
+	for i := len(pt.Instrs) - 1; i >= 0; i-- {
+		if p := pt.Instrs[i].Pos(); p.IsValid() && pt.Instrs[i].Parent() == f {
+			return p
+		}
+	}
+	return f.Pos()
+}
+
